@@ -92,10 +92,17 @@ CHECKS.update({
     "C20": {"steps": [REPLAYS,
                       plain("exhaustive", "TestC20Exhaustive", timeout={"quick": 600, "thorough": 2400}),
                       rapid("queue", "TestC20", 6000, 300000, qshards=4, tshards=14),
+                      rapid("e2e", "TestC20E2E", 160, 4000, qshards=8, tshards=14),
                       plain("race", "TestC20Race", race=True, race_reports=True, timeout={"quick": 600, "thorough": 2400})],
             "assumptions": ["one producer and one consumer, as in the client (one downloader, one processor per stream)",
                             "interleavings are enumerated at the instrumented yield points (after each unlock, before the following wait) and at operation boundaries; inside critical sections operations are atomic",
                             "blocked = goroutine parked in select (goroutine state), not a timeout"]},
+    "C10": {"steps": [REPLAYS, rapid("client", "TestC10", 640, 20000, qshards=8, tshards=14, shrinktime="60s", timeout={"quick": 900, "thorough": 3000})],
+            "assumptions": ["streams are built by the harness with mediacommon's fMP4 / MPEG-TS writers and served by an in-process http.RoundTripper (no sockets)",
+                            "delivery is paced in real time by the client, so streams carry at most a few hundred ms of media",
+                            "AV1 / VP9 / audio callbacks carry no DTS: only PTS is compared there",
+                            "AbsoluteTime: the value is checked whenever it is available; availability is required only for the leading track from the first dated segment on",
+                            "MPEG-TS segments are muxed in DTS order; PROGRAM-DATE-TIME values are consistent with media time to 1 ms"]},
     "C16": e1("TestC16", 1000, 30000),
     "C18": e1("TestC18", 400, 8000),
     "C19": e1("TestC19", 800, 30000),
